@@ -2,7 +2,7 @@
 #include "scen_future.h"
 namespace hz {
 static const Info I = {
-    "C02", 1, 19, 60000, true, true,
+    "C02", 1, 20, 60000, true, true,
     "rapidcheck generates (program, schedule, faults); the program decodes to a value type, ONE resolver (value / exception / drop / promise destruction / "
     "completion of an async coroutine bound to the future, returning or throwing / promise moved away then resolved / bind(value)() / unhandled_exception() / promise_with_default destroyed) and 1..3 waiters on their own threads of kinds {co_await f, co_await f.has_value(), "
     "f.wait(), f.sync(), subscribe(custom awaiter), callback_await, polling ready(), force_wait() inside a coroutine, operator bool then value(), co_await cocls::parallel(f) - continuing in a new detached thread} with generated yields, waiters or resolver spawned first; spurious weak-CAS failures injected. "
